@@ -3,7 +3,8 @@ python3 stdlib only."""
 import hashlib, json, os, re, shutil, subprocess, sys, time, glob, random
 from concurrent.futures import ThreadPoolExecutor
 
-V = '/verif'
+V = os.environ.get('VERIF_HOME', '/verif')
+REPO = os.environ.get('VERIF_REPO', '/repo')
 WORK = V + '/work'
 SPEC = V + '/spec'
 HARNESS = V + '/harness'
@@ -55,7 +56,7 @@ def tree_files(root, exts=None, skip=('target', '.git')):
 
 
 def repo_hash():
-    return file_hash(tree_files('/repo/src') + tree_files('/repo/test') + ['/repo/Cargo.toml', '/repo/Cargo.lock'])
+    return file_hash(tree_files(REPO + '/src') + tree_files(REPO + '/test') + [REPO + '/Cargo.toml', REPO + '/Cargo.lock'])
 
 
 def spec_hash():
@@ -128,7 +129,7 @@ def run_mc(module, cfg, workers=8, timeout=1800, cache=True):
     return r
 
 
-def ensure_lts(module, cfg):
+def ensure_lts(module, cfg, tags=('EDGE', 'STATE', 'UNIVERSE')):
     """emit the labelled transition system of an MC_* instance (cached by spec hash)"""
     key = '%s-%s-%s' % (module, cfg, spec_hash())
     f = WORK + '/lts/' + key + '.out'
@@ -141,7 +142,7 @@ def ensure_lts(module, cfg):
         raise ToolError('LTS emission failed for %s/%s:\n%s' % (module, cfg, out[-3000:]))
     with open(f + '.tmp', 'w') as g:
         for line in out.splitlines():
-            if line.startswith('<<"EDGE"') or line.startswith('<<"STATE"') or line.startswith('<<"UNIVERSE"'):
+            if any(line.startswith('<<"%s"' % t) for t in tags):
                 g.write(line + '\n')
     os.rename(f + '.tmp', f)
     log('LTS %s/%s emitted in %.1fs' % (module, cfg, time.time() - t))
@@ -217,12 +218,18 @@ def props_of(conj, sig, group):
     kind = sig.get('kind', '-')
     op = sig.get('op', '-')
     ps = set()
+    if kind == 'join':
+        ps.add('C06')
+        if conj == 'nopanic':
+            ps.add('C13')
+        if conj in ('errpath', 'rejects'):
+            ps.add('C12')
+        return ps
     if conj in ('class', 'value', 'effect', 'initmatch'):
         ps.add('C01')
         if kind == 'ovl':
             ps.add('C09')
-            if group in ('ovl_cycles',):
-                ps.add('C10')
+            ps.add('C10')
         if kind == 'alt':
             ps.add('C07')
         if op in ('create_dir_all', 'remove_dir_all', 'copy_file', 'move_file', 'copy_dir', 'move_dir'):
@@ -239,7 +246,7 @@ def props_of(conj, sig, group):
         ps.add('C03')
     elif conj == 'observers':
         ps.add('C05')
-        if kind == 'ovl' and group in ('ovl_cycles',):
+        if kind == 'ovl':
             ps.add('C10')
     elif conj == 'errpath':
         ps.add('C12')
@@ -268,7 +275,7 @@ def match_known(prop, v, known):
     'match' record against the violation's signature (conj against the failing conjuncts)"""
     sig = v.get('sig', {})
     for k in known:
-        if k.get('status') != 'open' or k.get('property') != prop:
+        if k.get('status') != 'open' or prop not in k.get('properties', []):
             continue
         ok = True
         for key, want in k.get('match', {}).items():
